@@ -28,8 +28,17 @@ def _od(kind, pdo_no, subs, with_values=None):
     base_c, base_m = (0x1400, 0x1600) if kind == "rpdo" else (0x1800, 0x1A00)
     ci, mi = base_c + pdo_no - 1, base_m + pdo_no - 1
     od.add_object(C.pdo_comm_record(ci, "comm", subs))
-    od.add_object(C.pdo_map_array(mi, "map"))
+    if MAPARR["on"]:
+        # the mapping parameter described as an ARRAY that lists only sub-index 0 and 1 (CompactSubObj style): the
+        # other entries exist all the same, the dictionary creates them on demand
+        od.add_object(C.mkarray("map", mi, [C.mkvar("Number of mapped objects", mi, 0, C.U8, "rw"),
+                                            C.mkvar("Mapping entry", mi, 1, C.U32, "rw")]))
+    else:
+        od.add_object(C.pdo_map_array(mi, "map"))
     return od, ci, mi
+
+
+MAPARR = {"on": False}
 
 
 def _rig(kind, pdo_no, subs, dev=None):
@@ -54,8 +63,11 @@ WIDE = {"i64": [(C.TYPE_INDEX[0x15], 0, 64, False)],
         "r64": [(C.TYPE_INDEX[0x11], 0, 64, False)]}
 
 
-def save_read(kind, pdo_no, k, subs, dev_start, custom, wide=None):
+def save_read(kind, pdo_no, k, subs, dev_start, custom, wide=None, maparr=False):
     subs = tuple(subs)
+    MAPARR["on"] = bool(maparr)
+    if maparr:
+        sx.reach("map-array")
     net, node, dev, m, ci, mi = _rig(kind, pdo_no, subs)
     if dev_start == "enabled-other":
         # the device starts enabled with a different mapping
@@ -416,6 +428,9 @@ def jobs(tier):
         for wide, k in (("i64", 1), ("u32x2", 2), ("r64", 1)):
             out.append(dict(func="save_read", params=dict(kind=kind, pdo_no=1, k=k, subs=[1, 2], dev_start="blank",
                                                          custom=0, wide=wide)))
+        for k in (1, 3):
+            out.append(dict(func="save_read", params=dict(kind=kind, pdo_no=1, k=k, subs=[1, 2, 3, 5, 6], dev_start="enabled-other",
+                                                         custom=1, maparr=True), weight=k + 1))
         for src in ("value", "default"):
             out.append(dict(func="read_from_od", params=dict(kind=kind, source=src)))
     out.append(dict(func="predefined", params={}))
@@ -442,7 +457,7 @@ META = dict(
                     "COB-ID bit 29"],
     assumptions=["strict device rules from CiA 301 7.5.2.35/36 (mapping procedure)"],
     stubs=["struct", "SdoClient.upload/download replaced on the instance", "Network.send_message no-op", "logging"],
-    required_reach=["resave-after-refusal", "save-enabled", "save-disabled", "read-back", "event-driven", "from-od", "predefined", "load-configuration", "resave"],
+    required_reach=["resave-after-refusal", "map-array", "save-enabled", "save-disabled", "read-back", "event-driven", "from-od", "predefined", "load-configuration", "resave"],
     limits=dict(quick=dict(max_decisions=20000), thorough=dict(max_decisions=50000)),
     validate_every=dict(quick=3, thorough=5),
     max_validate=dict(quick=30, thorough=30),
